@@ -285,10 +285,12 @@ PROPS['C08'] = {
                    '(skip_volume && label). Exhaustive over the value domains (abstract interpretation over the finite '
                    'partition induced by the compared constants). Does not decide that whole generated volumes are read '
                    'faithfully.',
-    'claim': 'Exact value-classification tables and format constants versus the FAT specification (independent oracle), '
-             'plus read-modify-write preservation; whole-volume fidelity is not decided.',
+    'claim': 'Exact value-classification tables, entry-offset formula and format constants versus the FAT specification '
+             '(independent oracle); exact bit-level round trip of FAT12 entry packing, of the FAT32 stored word and of the two '
+             'halves of a first-cluster number; whole-volume fidelity is not decided.',
     'level_note': 'the specification tables are transcribed in the rule modules (rules/c08.py, rules/fattype.py)',
-    'technique': 'static analysis: decision-region walk (abstract interpretation over an exact finite partition) on MIR',
+    'technique': 'static analysis: decision-region walk (abstract interpretation over an exact finite partition) and '
+                 'bit-provenance abstract interpretation on MIR',
     'assumptions': COMMON_ASSUMPTIONS,
 }
 
@@ -458,13 +460,18 @@ PROPS['C10'] = {
                    'self.mirrors, each iteration seeks to an offset that depends on the slice size and on the loop counter '
                    'or a loop-carried value, and the cursor moves once after the loop. R10.4: FAT32 set merges the old '
                    'reserved nibble, FAT12 set_raw keeps the neighbour nibble, format_fat writes the media byte and marks '
-                   'padding entries, the next-free hint is used only when strictly below total_clusters + 2. Byte '
-                   'identity of the copies over histories is not decided.',
-    'claim': 'Structural necessary conditions of mirroring and reserved-bit preservation on all paths; byte identity over '
-             'histories is not decided.',
+                   'padding entries, the next-free hint is used only when strictly below total_clusters + 2. Exact, by '
+                   'bit-provenance abstract interpretation: every word Fat32::set stores is (old & 0xF000_0000) | new 28-bit '
+                   'value on every path (X9, with X4b: the reader it uses does not mask), and FAT12 set_raw / get_raw '
+                   'round-trip all 2^12 values for both parities while keeping the neighbour nibble of all 2^16 old words '
+                   '(X8); DiskSlice::write hands exactly the clipped length to every copy with write_all (R11.4); every table '
+                   'access seeks to cluster * bits / 8 (X7). Byte identity of the copies over histories is not decided.',
+    'claim': 'Mirroring structure on all paths; reserved-bit preservation exact at the bit level for every stored FAT32 word and '
+             'every FAT12 word (premise: values below 2^28 / 2^12); byte identity of the copies over histories is not decided.',
     'level_note': 'geometry is checked by dependence (which quantities each slice parameter is computed from), not by '
                   'evaluating the arithmetic',
-    'technique': 'static analysis: arm-restricted data dependence + loop-structure rules on MIR, mono instance typing',
+    'technique': 'static analysis: arm-restricted data dependence + loop-structure rules on MIR, mono instance typing, '
+                 'bit-provenance abstract interpretation of the entry packing',
     'assumptions': COMMON_ASSUMPTIONS,
 }
 
@@ -565,13 +572,23 @@ PROPS['C18'] = {
                    'and File::read under update_accessed_date; every Ok-exit of File::write with a non-zero count crosses '
                    'the update that stamps the modification time with the clock value; DirFileEntryData::renamed is a clone '
                    'with only `name` assigned and rename writes that value; each editor setter compares all stored fields '
-                   'of its timestamp before deciding the entry is unchanged (interprocedural field-read summary). The DOS '
-                   'date/time bit packing round trip over the date/time domain is arithmetic and not decided.',
-    'claim': 'Stamping discipline (who reads the clock, who sets which timestamp, when) on all paths; the packing round '
-             'trip is not decided.',
+                   'of its timestamp before deciding the entry is unchanged, component by component (R18.5b). The packing: '
+                   'the decoder cuts the words at the bit positions of the specification (R18.6); under the ranges that '
+                   'Date::new / Time::new establish (read off the interval analysis of the constructors) every value packed '
+                   'into a word fits the bits it is given and the sub-second byte stays within 0..=199 (R18.7); and bit-'
+                   'provenance abstract interpretation of encode and decode shows that year offset, month, day, hour, minute '
+                   'and the two-second count come back bit for bit for every value in those ranges (R18.8). NOT decided: the '
+                   'arithmetic identity for the odd second and the 10 ms units (sub-second byte = millis/10 + (sec%2)*100), '
+                   'and the chrono conversions.',
+    'claim': 'Stamping discipline (who reads the clock, who sets which timestamp, when) on all paths; bit-field round trip of '
+             'the DOS date word and of hour / minute / two-second count of the time word for all constructor-valid values; '
+             'the odd-second / millisecond arithmetic of the sub-second byte is bounded (0..=199) but its round trip is not '
+             'decided.',
     'level_note': 'caller sets are closed tables in rules/c18.py (a new legitimate caller must be added there)',
-    'technique': 'static analysis: who-may-call over the mono call graph + must-pass-through and dependence on MIR',
-    'assumptions': COMMON_ASSUMPTIONS,
+    'technique': 'static analysis: who-may-call over the mono call graph + must-pass-through and dependence on MIR + interval '
+                 'and bit-provenance abstract interpretation of the packing code',
+    'assumptions': COMMON_ASSUMPTIONS + ['Date / Time values are built by their checked constructors or by decode (public fields '
+                                         'are not overwritten with out-of-range values by the caller)'],
 }
 
 PROPS['C19'] = {
